@@ -10,7 +10,7 @@ ReadServiceInfo, ReadCapabilityMap, net.Message.Read - and requires an error.
 """
 import json
 from vlib import Infra
-from c02 import gen_vectors, absorb
+from c02 import gen_vectors, absorb, scaled_stage
 
 DECODERS = ("value", "sigreader", "reflect-decode", "basic-read", "metaobject", "objref", "serviceinfo", "capmap",
             "message")
@@ -42,6 +42,7 @@ def run(ctx):
     res = ctx.harness_json("codec", ["c08", path], timeout=3000)
     per = (res.get("extra") or {}).get("prefixes_per_decoder", {})
     absorb(ctx, res)
+    scaled_stage(ctx, "c08")
     # a self-test that fails on a tree where the decoders already misbehave is not an infrastructure
     # problem: the verdict of the run stands
     if not ctx.violations:
